@@ -701,7 +701,7 @@ pub fn gen_world(rng: &mut StdRng, faults: bool) -> World {
   let npkgs = rng.gen_range(1..=3);
   let mut world = World {
     mods: Default::default(), roots: vec![], ext: Default::default(), sch: Default::default(), urls: Default::default(),
-    registry: Default::default(), lock: Default::default(), opts: Default::default(), npm: Default::default(),
+    registry: Default::default(), lock: Default::default(), opts: Default::default(), npm: Default::default(), imports: vec![],
   };
   let mut pkg_names: Vec<&str> = names.to_vec();
   pkg_names.shuffle(rng);
@@ -865,7 +865,7 @@ pub fn gen_world(rng: &mut StdRng, faults: bool) -> World {
 pub fn gen_info_world(rng: &mut StdRng) -> World {
   let mut world = World {
     mods: Default::default(), roots: vec![], ext: Default::default(), sch: Default::default(), urls: Default::default(),
-    registry: Default::default(), lock: Default::default(), opts: Default::default(), npm: Default::default(),
+    registry: Default::default(), lock: Default::default(), opts: Default::default(), npm: Default::default(), imports: vec![],
   };
   let name = "@s/p";
   let v = "1.0.0";
